@@ -1,4 +1,6 @@
 #!/bin/sh
+# evidence / replays of runs against a deliberately changed tree must not replace the evidence of the real tree
+VERIF_OUT=$(mktemp -d /tmp/verif_out_XXXXXX); export VERIF_OUT; trap 'rm -rf "$VERIF_OUT"' EXIT
 # tools/try_refactor.sh <diff> <Cxx>...   apply a behaviour-preserving diff to /repo, run the quick checks, revert
 d=$1; shift
 git -C /repo apply "$d" || exit 9
